@@ -576,6 +576,35 @@ class _Split(ast.NodeTransformer):
         return node
 
 
+def _typing_names(tree: ast.AST):
+    """-> (names bound to typing.cast in this module, names bound to the typing module)"""
+    casts, mods = set(), set()
+    for st in getattr(tree, "body", []):
+        if isinstance(st, ast.ImportFrom) and st.module in ("typing", "typing_extensions") and st.level == 0:
+            for a in st.names:
+                if a.name == "cast":
+                    casts.add(a.asname or a.name)
+        elif isinstance(st, ast.Import):
+            for a in st.names:
+                if a.name in ("typing", "typing_extensions"):
+                    mods.add(a.asname or a.name)
+    return casts, mods
+
+
+class _StripCasts(ast.NodeTransformer):
+    """`typing.cast(T, v)` is `v` (the call returns its second argument unchanged and evaluates nothing else that matters: `T` is a type expression)."""
+    def __init__(self, names) -> None:
+        self.casts, self.mods = names
+
+    def visit_Call(self, node: ast.Call):
+        self.generic_visit(node)
+        f = node.func
+        is_cast = (isinstance(f, ast.Name) and f.id in self.casts) or (isinstance(f, ast.Attribute) and f.attr == "cast" and isinstance(f.value, ast.Name) and f.value.id in self.mods)
+        if is_cast and len(node.args) == 2 and not node.keywords and not any(isinstance(a, ast.Starred) for a in node.args):
+            return node.args[1]
+        return node
+
+
 class _DropAnn(ast.NodeTransformer):
     """C14: `x: T = v` outside class bodies is `x = v` (annotations of locals and module-level names are not behaviour)"""
     def visit_ClassDef(self, node: ast.ClassDef):
@@ -584,9 +613,24 @@ class _DropAnn(ast.NodeTransformer):
                 self.visit(st)
         return node
 
+    def __init__(self) -> None:
+        self._depth = 0
+
+    def visit_FunctionDef(self, node):
+        self._depth += 1
+        self.generic_visit(node)
+        self._depth -= 1
+        if not node.body:
+            node.body = [ast.copy_location(ast.Pass(), node)]
+        return node
+    visit_AsyncFunctionDef = visit_FunctionDef
+
     def visit_AnnAssign(self, node: ast.AnnAssign):
+        self.generic_visit(node)
         if node.value is not None and isinstance(node.target, (ast.Name, ast.Attribute)):
             return ast.copy_location(ast.Assign(targets=[node.target], value=node.value, lineno=node.lineno), node)
+        if node.value is None and isinstance(node.target, ast.Name) and self._depth > 0:
+            return ast.copy_location(ast.Pass(), node)  # a bare declaration of a local (`key: Any`) binds nothing; C-pass removal follows
         return node
 
 
@@ -785,8 +829,9 @@ def _unroll_table_loops(tree: ast.Module, known: set) -> None:
                 elts = None
                 if isinstance(it, ast.Name) and it.id in tables:
                     elts = tables[it.id].elts
-                elif isinstance(it, (ast.Tuple, ast.List, ast.Set)) and 0 < len(it.elts) <= 6 and all(isinstance(e, ast.Constant) for e in it.elts) \
-                        and (not isinstance(it, ast.Set) or len(it.elts) == 1):
+                elif isinstance(it, (ast.Tuple, ast.List, ast.Set)) and 0 < len(it.elts) <= 8 and (not isinstance(it, ast.Set) or len(it.elts) == 1) and (
+                        all(isinstance(e, ast.Constant) for e in it.elts) or
+                        all(isinstance(e, (ast.Tuple, ast.List)) and e.elts and all(isinstance(c_, ast.Constant) for c_ in e.elts) for e in it.elts)):
                     elts = it.elts  # a loop over a short display of constants is the sequence of its iterations
                 tg = st.target
                 tnames = [tg.id] if isinstance(tg, ast.Name) else ([e.id for e in tg.elts] if isinstance(tg, ast.Tuple) and all(isinstance(e, ast.Name) for e in tg.elts) else None)
@@ -2040,7 +2085,7 @@ def _propagate_local_const_tuples(tree: ast.Module) -> None:
                     continue
                 for st in list(blk):
                     if isinstance(st, ast.Assign) and len(st.targets) == 1 and isinstance(st.targets[0], ast.Name) and isinstance(st.value, ast.Tuple) and st.value.elts \
-                            and all(isinstance(e, ast.Constant) for e in st.value.elts) and stores.get(st.targets[0].id) == 1 and st.targets[0].id not in params \
+                            and (all(isinstance(e, ast.Constant) for e in st.value.elts) or all(isinstance(e, ast.Tuple) and e.elts and all(isinstance(c_, ast.Constant) for c_ in e.elts) for e in st.value.elts)) and stores.get(st.targets[0].id) == 1 and st.targets[0].id not in params \
                             and len(st.value.elts) <= 8:
                         nm = st.targets[0].id
                         val = st.value
@@ -2255,6 +2300,12 @@ def canonicalise(tree: ast.Module, module: str = "") -> ast.Module:
         _unroll_table_loops(tree, known)
     if os.environ.get("JV_CANON_C14", "1") == "1":
         tree = _DropAnn().visit(tree)
+        tree = _StripCasts(_typing_names(tree)).visit(tree)
+        for n_ in ast.walk(tree):
+            for fld_ in ("body", "orelse", "finalbody"):
+                b_ = getattr(n_, fld_, None)
+                if isinstance(b_, list) and len(b_) > 1 and any(isinstance(x_, ast.Pass) for x_ in b_):
+                    b_[:] = [x_ for x_ in b_ if not isinstance(x_, ast.Pass)] or [b_[0]]
     if os.environ.get("JV_CANON_C27", "1") == "1":
         _hoist_walrus(tree)
     if os.environ.get("JV_CANON_C34", "1") == "1":
